@@ -2,12 +2,9 @@ SPECIFICATION Spec
 CONSTANTS
   Seeds <- MCSeeds
   Dev <- EnvDev
-  Emit = TRUE
+  Emit = FALSE
 INVARIANT GenInL
 INVARIANT LastTokenNeeded
 INVARIANT TxAgrees
 INVARIANT NoLeak
-INVARIANT Collect
-INVARIANT EmitFinal
-POSTCONDITION CoverageComplete
 CHECK_DEADLOCK FALSE
